@@ -113,7 +113,7 @@ class StructStub:
         return SymBuf(BStr(chars, 4))
 
 
-KERNEL_GLOBALS = {"struct": StructStub, "memoryview": lambda x: x, "bytes": lambda x: x}
+KERNEL_GLOBALS = {"struct": StructStub, "memoryview": lambda x: x, "bytes": lambda x: x, "bytearray": lambda *a: SymBuf(BStr.const(bytes(*a)))}
 
 
 class _Sys:
@@ -265,6 +265,70 @@ def k1_framing(rep: Report, tier: str) -> None:
     for x in ctx.cex:
         cex.setdefault("read_bytes: " + x.label, (x.model, "c"))
 
+    # ---- (d) a client that disconnects in the middle of a frame must not affect the next one ----
+    g = dict(KERNEL_GLOBALS)
+    g["sys"] = _Sys
+    KS = Kernel("mypy.ipc", ["IPCServer.__enter__", "IPCServer.__exit__", "IPCBase.close"], extra_globals=g, closure=False)
+    rep.kernels_from(KS)
+    ctx = Ctx(timeout_ms=60000, max_paths=400000)
+    rd = {"n": 0}
+
+    def body_d(c: Ctx) -> None:
+        partial = B.bstr(c, "partial", 5 if tier == "quick" else 7, lo=0, hi=255, minlen=1)
+        payload = B.bstr(c, "payload2", 3, lo=0, hi=255, minlen=1)
+        # connection 1 delivers `partial` then EOF and it is NOT a complete frame
+        h1 = header_value(partial)
+        c.assume(SymBool(z3.Or(partial.n < 4, partial.n < 4 + h1)))
+        # connection 2 delivers one well-formed frame
+        hdr = StructStub.pack("!L", SymInt(payload.n))
+        frame2 = B.bconcat(hdr.s, payload)
+
+        class Sock:
+            def __init__(self) -> None:
+                self.conns = [_Conn([SymBuf(partial)]), _Conn([SymBuf(frame2)])]
+
+            def accept(self) -> Any:
+                return self.conns.pop(0), None
+
+        for cn in (0, 1):
+            pass
+
+        class Srv:
+            timeout = None
+            buffer = SymBuf(BStr.const(b""))
+            message_size = None
+            sock = Sock()
+
+            def close(self) -> None:
+                KS["IPCBase.close"](self)
+
+            def frame_from_buffer(self) -> Any:
+                return K["IPCBase.frame_from_buffer"](self)
+
+        for conn in Srv.sock.conns:
+            conn.setsockopt = lambda *a: None  # type: ignore[attr-defined]
+            conn.close = lambda: None  # type: ignore[attr-defined]
+        srv = Srv()
+        srv.buffer = SymBuf(BStr.const(b""))
+        srv.message_size = None
+        KS["IPCServer.__enter__"](srv)
+        r1 = K["IPCBase.read_bytes"](srv)
+        KS["IPCServer.__exit__"](srv)
+        c.check(isinstance(r1, bytes) and r1 == b"", "truncated request yields b''")
+        KS["IPCServer.__enter__"](srv)
+        r2 = K["IPCBase.read_bytes"](srv)
+        rd["n"] += 1
+        if isinstance(r2, bytes):
+            c.check(False, "next client's complete frame is delivered")
+        else:
+            c.check(r2.s.eq_term(payload), "next client's frame arrives intact after a client that hung up mid-frame")
+
+    ctx.explore(body_d)
+    rep.add_ctx("K1d framing state across connections (real IPCServer.__enter__/__exit__)", ctx)
+    rep.twin("K1d reached", rd["n"] > 0)
+    for x in ctx.cex:
+        cex.setdefault("cross-connection: " + x.label, (x.model, "d"))
+
     for key, (model, which) in cex.items():
         rep.sample({"kernel": "ipc framing", "class": key, "model": {k: (v if not isinstance(v, str) else v.encode('latin-1').hex()) for k, v in model.items()}})
         rep.candidate(key, f"framing obligation fails for {model}", model, replay_framing(model, which, cap))
@@ -314,6 +378,9 @@ def replay_framing(model: dict[str, Any], which: str, cap: int):
             v = model.get(name, "")
             return v.encode("latin-1").hex() if isinstance(v, str) else ""
 
+        if which == "d":
+            rp = replay_daemon_partial(hx("partial"))
+            return rp(d)
         if which == "b":
             script = FRAMING_REPLAY.format(kind="b", payload=hx("payload"), chunks=[])
         elif which == "c":
@@ -361,8 +428,10 @@ def k2_serve(rep: Report, tier: str) -> None:
 
     def body(c: Ctx) -> None:
         script = [FAULTS[c.choose(f"client{i}", len(FAULTS))] for i in range(nclients)]
+        gone = [bool(c.bool(f"gone{i}")) if script[i] in ("bad-utf8", "not-json", "json-not-dict") else False for i in range(nclients)]
         # the last client is always a well-formed status request: it must be answered
         script.append("ok-status")
+        gone.append(False)
         log: list = []
         state = {"i": -1}
 
@@ -399,7 +468,10 @@ def k2_serve(rep: Report, tier: str) -> None:
                 return json.dumps({"command": "status", "is_tty": False, "terminal_width": 80})
 
             def write(self, data: str) -> None:
-                if script[state["i"]] == "hangup-before-reply":
+                k = script[state["i"]]
+                # a peer that hung up cannot be written to; whether a misbehaving client still
+                # reads replies is its own choice (solver-chosen)
+                if k in ("hangup-before-reply", "close-early") or (k in ("bad-utf8", "not-json", "json-not-dict") and gone[state["i"]]):
                     raise BrokenPipeError("peer gone")
                 log.append(["reply", json.loads(data)])
 
@@ -507,6 +579,45 @@ finally:
     subprocess.run(dm + ["kill"], env=env, capture_output=True)
 sys.exit(1 if bad else 0)
 '''
+
+
+PARTIAL_REPLAY = r'''
+import json, os, socket, subprocess, sys, time
+w = sys.argv[1]
+os.makedirs(w, exist_ok=True); os.chdir(w)
+open("a.py", "w").write("x: int = 1\n")
+env = dict(os.environ); env.pop("PYTHONPATH", None)
+dm = [sys.executable, "-m", "mypy.dmypy", "--status-file", "st.json"]
+subprocess.run(dm + ["start", "--", "--no-error-summary"], env=env, check=True, capture_output=True)
+st = json.load(open("st.json"))
+bad = True
+try:
+    s = socket.socket(socket.AF_UNIX); s.connect(st["connection_name"])
+    s.sendall(bytes.fromhex({partial!r})); s.close()
+    time.sleep(0.5)
+    r = subprocess.run(dm + ["status"], env=env, capture_output=True, text=True)
+    print("dmypy status after a client that hung up mid-frame: rc", r.returncode, (r.stdout + r.stderr).strip()[:300])
+    bad = r.returncode != 0
+finally:
+    subprocess.run(dm + ["kill"], env=env, capture_output=True)
+sys.exit(1 if bad else 0)
+'''
+
+
+def replay_daemon_partial(partial_hex: str):
+    def replay(d: str) -> tuple[bool, str]:
+        with open(os.path.join(d, "replay.py"), "w") as f:
+            f.write(PARTIAL_REPLAY.format(partial=partial_hex))
+        work = scratch("c16p-")
+        try:
+            env = dict(os.environ)
+            env.pop("PYTHONPATH", None)
+            p = subprocess.run([sys.executable, os.path.join(d, "replay.py"), work], capture_output=True, text=True, timeout=180, env=env)
+        finally:
+            shutil.rmtree(work, ignore_errors=True)
+        return p.returncode != 0, (p.stdout + p.stderr)[-500:]
+
+    return replay
 
 
 def replay_daemon(script: list[str], key: str):
